@@ -185,7 +185,7 @@ func (fx *fnExec) applyContract(dst *ssa.Call, ctr *FuncContract, name string, c
 		if !okMode {
 			// only portable clauses cross the mode boundary
 			for _, cl := range ctr.Requires {
-				if !cl.Portable {
+				if !cl.Portable && !isModeNeutral(cl.E) {
 					panic(vcErr("callee %s is verified in modes %v; its precondition %q is not portable to mode %s (%s)", name, modes, cl.Src, fx.mode, where))
 				}
 			}
@@ -215,6 +215,21 @@ func (fx *fnExec) applyContract(dst *ssa.Call, ctr *FuncContract, name string, c
 	}
 	if c.IsInvoke() {
 		env.names["recv"] = args[0]
+	}
+	// a closure called through its value: its contract may name the variables it captured (their values now)
+	if callee != nil && len(callee.FreeVars) > 0 {
+		if fv, ok := fx.val(c.Value).(FnV); ok && fv.Fn == callee && len(fv.Bindings) == len(callee.FreeVars) {
+			for i, b := range fv.Bindings {
+				if _, taken := env.names[callee.FreeVars[i].Name()]; taken {
+					continue
+				}
+				if ad, isAd := b.(Ad); isAd {
+					env.names[callee.FreeVars[i].Name()] = fx.load(ad)
+				} else {
+					env.names[callee.FreeVars[i].Name()] = b
+				}
+			}
+		}
 	}
 	if strings.HasPrefix(name, "dynamic:") {
 		// the function value itself is visible to the contract as `fn`
@@ -319,7 +334,7 @@ func (fx *fnExec) applyContract(dst *ssa.Call, ctr *FuncContract, name string, c
 		fx.bindResult(env, res, sig)
 	}
 	for _, cl := range ctr.Ensures {
-		if !cl.inMode(fx.mode) || (portableOnly && !cl.Portable) {
+		if !cl.inMode(fx.mode) || (portableOnly && !cl.Portable && !isModeNeutral(cl.E)) {
 			continue
 		}
 		fx.assume(fx.evalClause(cl, env))
@@ -429,9 +444,8 @@ func (fx *fnExec) execBuiltin(dst *ssa.Call, b *ssa.Builtin, c *ssa.CallCommon, 
 func (fx *fnExec) builtinAppend(dst *ssa.Call, c *ssa.CallCommon, args []SV, where string) {
 	st := c.Args[0].Type().Underlying().(*types.Slice)
 	s := fx.fit(args[0], c.Args[0].Type()).(Sl)
-	if fx.mode != "int" {
-		panic(vcErr("append in bv mode unsupported"))
-	}
+	is := fx.isort() // index sort: Int, or 64-bit vectors in the bit-vector reading
+	zero := fx.iZero()
 	var k Term
 	var srcArr, srcOff Term
 	var srcIsStr bool
@@ -441,52 +455,59 @@ func (fx *fnExec) builtinAppend(dst *ssa.Call, c *ssa.CallCommon, args []SV, whe
 		k, srcArr, srcOff = a.Len, a.Arr, a.Off
 	case Sc:
 		if a.T.So == SStr {
+			if fx.mode != "int" {
+				panic(vcErr("append of a string in bv mode unsupported"))
+			}
 			srcIsStr = true
 			srcStr = a.T
 			k = app(SInt, "slen", a.T)
 			fx.assume(app(SBool, "<=", intLit64(0), k))
 		} else {
 			// nil slice
-			k = intLit64(0)
-			srcArr, srcOff = intLit64(0), intLit64(0)
+			k = zero
+			srcArr, srcOff = intLit64(0), zero
 		}
 	case Lit:
-		k = intLit64(0)
-		srcArr, srcOff = intLit64(0), intLit64(0)
+		k = zero
+		srcArr, srcOff = intLit64(0), zero
 	default:
 		panic(vcErr("append of %T", args[1]))
 	}
 	newLen := fx.iAdd(s.Len, k)
-	fits := app(SBool, "<=", newLen, s.Cap)
+	fits := fx.iLe(newLen, s.Cap)
 	fresh := fx.freshRef("app")
 	rArr := tIte(fits, s.Arr, fresh)
-	rOff := tIte(fits, s.Off, intLit64(0))
-	nc := fx.freshConst("appcap", SInt)
-	fx.assume(tAnd(app(SBool, ">=", nc, newLen), app(SBool, "<=", nc, intLit(pow2(48)))))
+	rOff := tIte(fits, s.Off, zero)
+	nc := fx.freshConst("appcap", is)
+	fx.assume(tAnd(fx.iLe(newLen, nc), fx.iLe(nc, fx.litTo(pow2(48), is))))
 	rCap := tIte(fits, s.Cap, nc)
+	iq := Term{"i$q", is}
+	jq := Term{"j$q", is}
+	inRange := func(v, n Term) Term { return tAnd(fx.iLe(zero, v), fx.iLt(v, n)) }
+	sel2 := func(h, arr, i Term) Term { return tSel(tSel(h, arr), i) }
 	for _, l := range fx.leaves(st.Elem()) {
 		name := "E." + typeKey(st.Elem()) + l.suffix
 		so := fx.heapSortFor("E.", l)
 		h := fx.heap(fx.st, name, so)
 		nh := fx.freshConst("apph", so)
 		// other arrays unchanged
-		fx.assume(Term{fmt.Sprintf("(forall ((a$q Int) (i$q Int)) (! (=> (not (= a$q %s)) (= (select (select %s a$q) i$q) (select (select %s a$q) i$q))) :pattern ((select (select %s a$q) i$q))))", rArr.S, nh.S, h.S, nh.S), SBool})
+		fx.assume(Term{fmt.Sprintf("(forall ((a$q Int) (i$q %s)) (! (=> (not (= a$q %s)) (= (select (select %s a$q) i$q) (select (select %s a$q) i$q))) :pattern ((select (select %s a$q) i$q))))", is, rArr.S, nh.S, h.S, nh.S), SBool})
 		// old content preserved in the result window
-		iq := Term{"i$q", SInt}
-		jq := Term{"j$q", SInt}
-		fx.assume(Term{fmt.Sprintf("(forall ((i$q Int)) (! (=> (and (<= 0 i$q) (< i$q %s)) (= (select (select %s %s) %s) (select (select %s %s) %s))) :pattern ((select (select %s %s) %s))))",
-			s.Len.S, nh.S, rArr.S, fx.eIdx(rOff, iq).S, h.S, s.Arr.S, fx.eIdx(s.Off, iq).S, nh.S, rArr.S, fx.eIdx(rOff, iq).S), SBool})
+		lhs := sel2(nh, rArr, fx.eIdx(rOff, iq))
+		fx.assume(Term{fmt.Sprintf("(forall ((i$q %s)) (! (=> %s (= %s %s)) :pattern (%s)))", is, inRange(iq, s.Len).S, lhs.S, sel2(h, s.Arr, fx.eIdx(s.Off, iq)).S, lhs.S), SBool})
 		// appended content
 		if srcIsStr {
 			fx.assume(Term{fmt.Sprintf("(forall ((j$q Int)) (=> (and (<= 0 j$q) (< j$q %s)) (= (select (select %s %s) %s) (sat %s j$q))))",
 				k.S, nh.S, rArr.S, fx.eIdx(rOff, app(SInt, "+", s.Len, jq)).S, srcStr.S), SBool})
-		} else if k.S != "0" {
-			fx.assume(Term{fmt.Sprintf("(forall ((j$q Int)) (=> (and (<= 0 j$q) (< j$q %s)) (= (select (select %s %s) %s) (select (select %s %s) %s))))",
-				k.S, nh.S, rArr.S, fx.eIdx(rOff, app(SInt, "+", s.Len, jq)).S, h.S, srcArr.S, fx.eIdx(srcOff, jq).S), SBool})
+		} else if k.S != zero.S {
+			fx.assume(Term{fmt.Sprintf("(forall ((j$q %s)) (=> %s (= %s %s)))", is, inRange(jq, k).S,
+				sel2(nh, rArr, fx.eIdx(rOff, fx.iAdd(s.Len, jq))).S, sel2(h, srcArr, fx.eIdx(srcOff, jq)).S), SBool})
 		}
 		// in place: everything outside the appended window is unchanged
-		fx.assume(tImp(fits, Term{fmt.Sprintf("(forall ((i$q Int)) (! (=> (or (< i$q (+ %s %s)) (>= i$q (+ %s %s %s))) (= (select (select %s %s) i$q) (select (select %s %s) i$q))) :pattern ((select (select %s %s) i$q))))",
-			s.Off.S, s.Len.S, s.Off.S, s.Len.S, k.S, nh.S, s.Arr.S, h.S, s.Arr.S, nh.S, s.Arr.S), SBool}))
+		lo := fx.iAdd(s.Off, s.Len)
+		hi := fx.iAdd(lo, k)
+		fx.assume(tImp(fits, Term{fmt.Sprintf("(forall ((i$q %s)) (! (=> (or %s (not %s)) (= (select (select %s %s) i$q) (select (select %s %s) i$q))) :pattern ((select (select %s %s) i$q))))",
+			is, fx.iLt(iq, lo).S, fx.iLt(iq, hi).S, nh.S, s.Arr.S, h.S, s.Arr.S, nh.S, s.Arr.S), SBool}))
 		fx.st.heaps[name] = nh
 	}
 	fx.setResult(dst, Sl{rArr, rOff, newLen, rCap, st.Elem()})
@@ -569,6 +590,43 @@ func plainData(t types.Type, depth int) bool {
 			}
 		}
 		return true
+	}
+	return false
+}
+
+// isModeNeutral: a clause that reads the same in the integer and in the bit-vector reading: no arithmetic, no bit
+// operation, no literal other than 0/nil/booleans - only comparisons of references, lengths and fields.
+func isModeNeutral(e Expr) bool {
+	switch x := e.(type) {
+	case EIdent, EBool:
+		return true
+	case EInt:
+		return x.V.Sign() == 0
+	case EUn:
+		return x.Op == "!" && isModeNeutral(x.X)
+	case EBin:
+		switch x.Op {
+		case "==", "!=", "<", "<=", ">", ">=", "&&", "||", "==>", "<==>":
+			return isModeNeutral(x.X) && isModeNeutral(x.Y)
+		}
+		return false
+	case ECond:
+		return isModeNeutral(x.C) && isModeNeutral(x.A) && isModeNeutral(x.B)
+	case ESel:
+		return isModeNeutral(x.X)
+	case EIndex:
+		return isModeNeutral(x.X) && isModeNeutral(x.I)
+	case ECall:
+		switch x.Fun {
+		case "len", "cap", "old", "fresh", "alive":
+			for _, a := range x.Args {
+				if !isModeNeutral(a) {
+					return false
+				}
+			}
+			return true
+		}
+		return false
 	}
 	return false
 }
